@@ -123,7 +123,7 @@ theorem seek_ioSafe (f : FileH) (p : SeekFrom) : IoSafe (f.seek p) := by
   unfold seek; iosafe [seekWalk_ioSafe]
 
 theorem truncate_ioSafe (f : FileH) : IoSafe f.truncate := by
-  unfold truncate; iosafe [truncateClusterChain_ioSafe, freeClusterChain_ioSafe]
+  unfold truncate; iosafe [setDirtyFlag_ioSafe, truncateClusterChain_ioSafe, freeClusterChain_ioSafe]
 
 theorem extentsLoop_ioSafe (fs) : ∀ k it left acc, IoSafe (extentsLoop fs k it left acc) := by
   intro k
